@@ -43,7 +43,7 @@ def main():
         if p not in CHECKS: continue
         eng, tech, text, note, ref = CHECKS[p]
         m["checks"].append({"property_id": p, "quick_cmd": "./check %s quick" % p, "thorough_cmd": "./check %s thorough" % p,
-            "evidence_file": "evidence/%s.json" % p, "replay_cmd_template": "./check replay {path}", "engine": ENGINES[eng]["name"],
+            "evidence_file": "/verif/evidence/%s.json" % p, "replay_cmd_template": "./check replay {path}", "engine": ENGINES[eng]["name"],
             "level_claimed": {"category": "model_checking", "text": text, "design_ref": ref}, "level_note": note, "technique": tech})
     json.dump(m, open("/verif/MANIFEST.json", "w"), indent=1)
     print("checks:", len(m["checks"]), "not_applicable:", len(m["not_applicable"]))
